@@ -292,7 +292,9 @@ func init() {
 		vc.oblige(st, "pre@reflect.Value.Index", "range", and(eq(v.L[iCls], cls(clsSlice)), not(eq(v.L[iMt], bvLit(64, rvInvalid))), app("bvsle", bvLit(64, 0), i.L[0]), app("bvslt", i.L[0], ln)), call.Pos(), vc.safetyProps)
 		// elements of a made slice live in the slice object; elements of a field's slice in an object of their own
 		obj := ite(eq(v.L[iMt], bvLit(64, rvSliceV)), v.L[iObj], vc.freshConst("rvelems", sBV64))
-		return Val{T: rt, L: []string{obj, bvLit(64, rvElemV), allOnes64, i.L[0], v.L[iECls], v.L[iEWid], cls(clsOther), bvLit(64, 0), bvLit(64, 0)}}
+		// elements of a field's slice carry a synthetic type tag (class and width): their size on the wire is known
+		etag := synthElemTag(v.L[iECls], v.L[iEWid])
+		return Val{T: rt, L: []string{obj, bvLit(64, rvElemV), allOnes64, i.L[0], v.L[iECls], v.L[iEWid], cls(clsOther), bvLit(64, 0), etag}}
 	})
 	reg("(reflect.Value).Interface", func(vc *VC, fr *Frame, st *State, call *ssa.CallCommon, args []Val, rt types.Type) Val {
 		v := args[0]
